@@ -21,7 +21,7 @@ RULE = ("two-run (hyper-property) monitor: for a generated case A (all three est
 ASSUMPTIONS = ["arguments are deep-copied before every call (the client appends to the caller's config feature list)",
                "gaussian runs use the real boot_sigma with 300 instead of 10000 resamples (same code path)",
                "BLAS threads pinned to 1 in all processes"]
-BATCH = {"quick": 3, "thorough": 10}
+BATCH = {"quick": 1, "thorough": 4}
 BUDGET = {"quick": 150, "thorough": 1500}
 MIN_NONTRIVIAL = {"quick": 10, "thorough": 30}
 N = {"quick": 48, "thorough": 1500}
@@ -30,13 +30,23 @@ CASE_TIMEOUT = 900
 
 
 def cases(tier, seed):
-    return [dict(seed=seed, i=i, cross=(i % CROSS_EVERY[tier] == 0)) for i in range(N[tier])]
+    out = [dict(seed=seed, i=i, cross=(i % CROSS_EVERY[tier] == 0)) for i in range(N[tier])]
+    # scale: several thousand modelled units with the outlier models on (code paths that subsample or batch only
+    # above some size are never entered by elections of a few hundred units)
+    out += [dict(seed=seed, i=900000 + k, big=True, cross=False) for k in range({"quick": 2, "thorough": 12}[tier])]
+    return out
 
 
 def build(spec):
     i = spec["i"]
     o = dict(estimator=["nonparametric", "gaussian", "bootstrap"][i % 3], el_n_units=None, feed_frac_reporting=0.7)
     o.pop("el_n_units")
+    if spec.get("big"):
+        o.update(estimator="nonparametric", el_n_units=int(6500 + 1500 * (i % 3)), el_n_states=4,
+                 el_counties_per_state=8, feed_frac_reporting=0.93, feed_n_missing=0, n_estimands=1, features=[],
+                 fixed_effects={}, policy="drop", threshold=100, allow_pointer_config=False, el_tiny_county=False,
+                 aggregates=["postal_code", "unit"], rare_options=False,
+                 mp=dict(fit_turnout_outlier_model=True, fit_margin_outlier_model=True))
     el, feed, status, call = cases_mod.build(spec["seed"], PROPERTY, i, o)
     if "unit" not in call["aggregates"]:
         call["aggregates"].append("unit")
@@ -44,7 +54,7 @@ def build(spec):
         call["model_parameters"]["agg_model_hard_threshold"] = bool(i % 2)
         call["model_parameters"]["T"] = [10, 5000, 200][i % 3]
         call["model_parameters"]["national_summary_correlation"] = bool((i // 2) % 2)
-    if call["pi_method"] == "bootstrap" and (i // 3) % 2 == 0 and "strata" not in call["model_parameters"]:
+    if call["pi_method"] == "bootstrap" and spec.get("cross") and "strata" not in call["model_parameters"]:
         # rarely used option: stratify the residual bootstrap by two columns (a derived one the baseline file carries)
         med = float(el.pre.baseline_turnout.median())
         el.pre["size_class"] = ["big" if v > med else "small" for v in el.pre.baseline_turnout]
